@@ -9,6 +9,8 @@
 //!                                            (`Frame::get_length`) is L, then a small one; a library subscriber /
 //!                                            replier is attached. Frames up to the limit must pass; a request that
 //!                                            outgrows the limit once the router tags it is dropped, nothing else
+//!   reg iso <nsA> <tpA> <nsB> <tpB>         (hex) raw subscribers and publishers on two names; each publisher sends one
+//!                                            message; every subscriber must see exactly the traffic of its own name
 //! Frames use the notation of wire.rs (`RP ns topic ret ops`, `M headers msg`, `OK`, …), `_` for spaces inside.
 //! Implementation line: the answer(s) (`Ok`, `Error<code>`, `closed`, `timeout`) and `probe=<ok|FAILED …>`.
 use crate::e2e::*;
@@ -264,6 +266,37 @@ async fn run_case(addr: SocketAddr, certs: &Certs, t: &[&str]) -> anyhow::Result
                 Ok(format!("{a} {} reply={reply} after={after} probe={probe}", if sent { "sent" } else { "refused" }))
             }
         }
+        "iso" => {
+            let name = |i: usize| (String::from_utf8_lossy(&unhx(t[i])).to_string(), String::from_utf8_lossy(&unhx(t[i + 1])).to_string());
+            let (a, b) = (name(2), name(4));
+            let conn = raw(addr, certs).await?;
+            let mut answers = vec![];
+            let mut subs = vec![];
+            for n in [&a, &b] {
+                let mut s = raw_stream(&conn).await?;
+                s.send(reg_frame("RS", &n.0, &n.1)).await?;
+                answers.push(answer(&mut s).await);
+                subs.push(s);
+            }
+            tokio::time::sleep(Duration::from_millis(60)).await;
+            for (n, text) in [(&a, "from-a"), (&b, "from-b")] {
+                let mut p = raw_stream(&conn).await?;
+                p.send(reg_frame("RP", &n.0, &n.1)).await?;
+                answers.push(answer(&mut p).await);
+                let _ = p.send(Frame::Message(MessagePayload { headers: None, message: bytes::Bytes::from(text) })).await;
+                let _ = p.finish().await;
+                // the next publisher only after this one's message has had time to go through
+                tokio::time::sleep(Duration::from_millis(60)).await;
+            }
+            let mut seen = vec![];
+            for s in subs.iter_mut() {
+                let mut got = vec![];
+                while let Ok(Some(Ok(Frame::Message(m)))) = tokio::time::timeout(Duration::from_millis(250), s.next()).await { got.push(String::from_utf8_lossy(&m.message).to_string()); }
+                seen.push(if got.is_empty() { "-".to_string() } else { got.join("+") });
+            }
+            drop(subs);
+            Ok(format!("{} a={} b={} probe=ok", answers.join(" "), seen[0], seen[1]))
+        }
         "stall" => {
             let n: usize = t[2].parse()?;
             let (ns, tp) = fresh();
@@ -345,6 +378,23 @@ pub fn run(cfg: &Cfg) {
         for l in [max - 20, max - 9, max - 8, max - 1, max, max + 1] { cases.push(format!("reg big RP {l}")); }
         for l in [max - 100, max - 28, max - 27, max - 9, max, max + 1] { cases.push(format!("reg big RQ {l}")); }
         cases.push("reg stall 130".into());
+        // isolation between names that are close to each other: the same text with the separator elsewhere, swapped
+        // parts, case, '-' / '_', one extra character, and the same name twice (control: shared)
+        let k = TOPIC.fetch_add(1, Ordering::SeqCst);
+        let pairs: Vec<((String, String), (String, String))> = vec![
+            (("abc".into(), format!("defghi{k}")), ("abcdef".into(), format!("ghi{k}"))),
+            (("news_eu".into(), format!("rope{k}")), ("news".into(), format!("_europe{k}"))),
+            (("iso".into(), format!("abc{k}")), (format!("abc{k}"), "iso".into())),
+            (("iso".into(), format!("Case{k}")), ("iso".into(), format!("case{k}"))),
+            (("iso".into(), format!("a-b{k}")), ("iso".into(), format!("a_b{k}"))),
+            (("iso".into(), format!("top{k}")), ("iso".into(), format!("top{k}x"))),
+            (("isoa".into(), format!("same{k}")), ("isob".into(), format!("same{k}"))),
+            (("iso".into(), format!("twice{k}")), ("iso".into(), format!("twice{k}"))),
+            (("i\u{0441}o".into(), format!("cyr{k}")), ("ico".into(), format!("cyr{k}"))),
+        ];
+        for (a, b) in pairs {
+            cases.push(format!("reg iso {} {} {} {}", hx(a.0.as_bytes()), hx(a.1.as_bytes()), hx(b.0.as_bytes()), hx(b.1.as_bytes())));
+        }
     }
     let mut dead = false;
     // the messaging pattern each (valid) topic name was first registered with, in this run
@@ -365,7 +415,7 @@ pub fn run(cfg: &Cfg) {
                 let probe_ok = line.split(' ').filter(|x| x.contains('=') && ["probe", "queued-peer", "blocked-publisher"].contains(&x.split('=').next().unwrap())).all(|x| x.ends_with("=ok"));
                 if !probe_ok { dead = line.contains("hang"); m = Err(format!("C11/C17: after `{}` well-behaved clients are no longer served: {line}", t[1..].join(" ").chars().take(80).collect::<String>())); }
                 if m.is_ok() {
-                    let answers: Vec<&str> = line.split(' ').filter(|x| !x.starts_with("probe=") && !x.starts_with("queued-peer=") && !x.starts_with("blocked-publisher=")).collect();
+                    let answers: Vec<&str> = line.split(' ').filter(|x| !x.starts_with("probe=") && !x.starts_with("queued-peer=") && !x.starts_with("blocked-publisher=") && !x.starts_with("a=") && !x.starts_with("b=")).collect();
                     for a in &answers {
                         if *a == "timeout" { m = Err(format!("C11: a stream was neither served nor refused nor closed: {line}")); }
                     }
@@ -375,6 +425,11 @@ pub fn run(cfg: &Cfg) {
                         if l <= max && !line.contains(" sent ") { m = Err(format!("C05/C11: a frame of payload length {l} <= limit was refused by the encoder: {line}")); }
                         if t[2] == "RP" && l <= max && !line.contains(&format!("got={},5 ", l - 9)) { m = Err(format!("C11/C03: a publisher's frame within the limit (payload length {l}) did not reach the subscriber, or took the following message with it: {line}")); }
                         if t[2] == "RQ" && !line.contains("after=len5") { m = Err(format!("C11: after a request of payload length {l} the next request on the same stream was not answered: {line}")); }
+                    }
+                    if t[1] == "iso" {
+                        let same = t[2] == t[4] && t[3] == t[5];
+                        let (wa, wb) = if same { ("from-a+from-b", "from-a+from-b") } else { ("from-a", "from-b") };
+                        if !line.contains(&format!(" a={wa} b={wb} ")) { m = Err(format!("C01/C07: two names {} traffic: {line}", if same { "that are equal do not share" } else { "that differ share / lose" })); }
                     }
                     if t[1] == "mismatch" {
                         let same_pattern = (t[2] == "RP" || t[2] == "RS") == (t[3] == "RP" || t[3] == "RS");
